@@ -251,7 +251,7 @@ def run_case(item):
                 checks.append(("other-key-untouched", z3.Or(*[v["after_release"][pair[1]][f] != keys[pair[1]][f] for f in ("deb", "pt", "rt", "rp", "pressed")])))
         for name, neg in checks:
             res["obligations"] += 1
-            r_, m_, dt = X.solve(p.constraints, [neg])
+            r_, m_, dt = X.solve(p.constraints, [neg], fast=True)
             res["solver_time"] += dt
             if r_ == "unsat":
                 res["discharged"] += 1
